@@ -2731,3 +2731,14 @@ mod tests {
         }
     }
 }
+
+// ========================================================================
+// Verification hooks (only with `--cfg crrl_verif`).
+
+#[cfg(crrl_verif)]
+impl Point {
+    /// Access to the private scalar splitting function.
+    pub fn verif_split_theta(k: &Scalar) -> (u128, u32, u128, u32) {
+        Self::split_theta(k)
+    }
+}
